@@ -51,6 +51,8 @@ impl PublicKey {
 
     pub(crate) fn from_bytes_impl(bytes: &[u8]) -> Result<PublicKey, BSVErrors> {
         let point = EncodedPoint::<Secp256k1>::from_bytes(bytes).map_err(|e| BSVErrors::PublicKeyError(e.to_string()))?;
+        // A well-formed encoding is not enough: the point has to be on the curve and must not be the identity
+        k256::PublicKey::from_sec1_bytes(bytes).map_err(|e| BSVErrors::PublicKeyError(e.to_string()))?;
         Ok(PublicKey::from_encoded_point(&point))
     }
 
